@@ -379,8 +379,15 @@ class FactSet:
         self.enums = raw['enums']
         self.init_h = raw.get('init_h')
         if not raw.get('_normalised') and not os.environ.get('ORV_NO_NORMALISE'):
-            from .normalize import normalise
+            from .normalize import normalise, inline_helpers
             root = REPO.rstrip('/') + '/'
+            if not os.environ.get('ORV_NO_INLINE'):
+                try:
+                    with open(os.path.join(os.path.dirname(os.path.abspath(__file__)), 'inventory.json')) as fh:
+                        inv = set(json.load(fh)['functions'])
+                    self.inlined_calls = inline_helpers(raw['functions'], inv, root)
+                except FileNotFoundError:
+                    self.inlined_calls = 0
             for v in raw['functions'].values():
                 if v.get('body') and (v.get('loc') or '').startswith(root):
                     v['body'] = normalise(v['body'])
@@ -389,6 +396,8 @@ class FactSet:
                             io['init'] = normalise(io['init'])
             raw['_normalised'] = True
         self.fns = {k: Fn(v) for k, v in raw['functions'].items()}
+        for f in self.fns.values():
+            f.fs = self
         self.by_name = {}
         for f in self.fns.values():
             self.by_name.setdefault(f.name, []).append(f)
